@@ -76,7 +76,7 @@ func blastMain(args mon.Args, prop string) {
 	if prop == "C01" {
 		nProc = run.Pick(2, 10)
 	}
-	var totalSent, totalPub, totalDrops int64
+	var totalSent, totalPub, totalDrops, exactFed int64
 	for pi := 0; pi < nProc; pi++ {
 		g := mon.NewRNG(run.Seed, "blast-"+prop, pi)
 		pdir := filepath.Join(dir, fmt.Sprintf("blast%d", pi))
@@ -96,7 +96,7 @@ func blastMain(args mon.Args, prop string) {
 			"pid-file": filepath.Join(pdir, "vflow.pid"), "ipfix-tpl-cache-file": filepath.Join(pdir, "i.tpl"), "netflow9-tpl-cache-file": filepath.Join(pdir, "n.tpl"),
 			"ipfix-port": strconv.Itoa(ports["ipfix"]), "netflow9-port": strconv.Itoa(ports["nf9"]), "netflow5-port": strconv.Itoa(ports["nf5"]), "sflow-port": strconv.Itoa(ports["sflow"]),
 			"ipfix-workers": strconv.Itoa(workers), "netflow9-workers": strconv.Itoa(workers), "netflow5-workers": strconv.Itoa(workers), "sflow-workers": strconv.Itoa(workers),
-			"ipfix-udp-size": strconv.Itoa(udpSize), "netflow9-udp-size": strconv.Itoa(udpSize), "sflow-udp-size": strconv.Itoa(udpSize), "netflow5-udp-size": "1500",
+			"ipfix-udp-size": strconv.Itoa(udpSize), "netflow9-udp-size": strconv.Itoa(udpSize), "sflow-udp-size": strconv.Itoa(udpSize), "netflow5-udp-size": "1464",
 		}
 		mirrorOn := prop == "C01" && pi%2 == 1
 		var mirrorLn *net.UDPConn
@@ -159,6 +159,7 @@ func blastMain(args mon.Args, prop string) {
 		lib := pipe.NewLibCache()
 		id := 0
 		sentPer := map[string]int{}
+		aheadOctets := map[string]int{}
 		flowOK := func() (flowStats, bool) {
 			fl, err := getFlow("127.0.0.1", statsPort)
 			return fl, err == nil
@@ -167,7 +168,10 @@ func blastMain(args mon.Args, prop string) {
 		send := func(proto string, e, d []byte) {
 			snd.send(net.IP(e[12:16]), ports[proto], d)
 			sentPer[proto]++
-			if sentPer[proto]%150 == 0 {
+			// the collector's socket buffer (208 KiB by default) is charged the datagram plus its skb overhead
+			aheadOctets[proto] += len(d) + 1280
+			if sentPer[proto]%150 == 0 || aheadOctets[proto] > 96<<10 {
+				aheadOctets[proto] = 0
 				for w := 0; w < 400; w++ {
 					fl, ok := flowOK()
 					if !ok || !col.alive() {
@@ -183,13 +187,13 @@ func blastMain(args mon.Args, prop string) {
 		for _, proto := range []string{"ipfix", "nf9", "nf5", "sflow"} {
 			tr := pipe.NewTraffic(g, proto, len(exps), udpSize, snapE, true, false, exps...)
 			if proto == "nf5" {
-				tr.UDPSize = 1500
+				tr.UDPSize = 1464
 			}
 			feed := func(e, d []byte, kind string) {
 				id++
 				lim := udpSize
 				if proto == "nf5" {
-					lim = 1500
+					lim = 1464
 				}
 				seen := d
 				if len(seen) > lim {
@@ -224,6 +228,26 @@ func blastMain(args mon.Args, prop string) {
 					if l <= len(valid) {
 						id++
 						feed(e, valid[:l], "tiny valid prefix")
+					}
+				}
+			}
+			// datagrams that fill the receive buffer exactly (and one octet less): complete and decodable, and
+			// indistinguishable for a read loop from a datagram that was cut - they must be taken like any other
+			{
+				lim := udpSize
+				if proto == "nf5" {
+					lim = 1464
+				}
+				for k := 0; k < 6; k++ {
+					e := exps[g.Intn(len(exps))]
+					for _, sz := range []int{lim, lim - 4, lim - 8} {
+						if proto == "nf5" {
+							sz = lim - 48*((lim-sz)/4)
+						}
+						if d := tr.DataExact(e, id+1, sz); d != nil {
+							feed(e, d, fmt.Sprintf("data of exactly %d octets (max-udp-size %d)", len(d), lim))
+							exactFed++
+						}
 					}
 				}
 			}
@@ -465,6 +489,7 @@ func blastMain(args mon.Args, prop string) {
 		stormProcess(run, dir)
 	}
 	run.Set("datagrams_sent_over_udp", totalSent)
+	run.Set("datagrams_exactly_filling_the_receive_buffer", exactFed)
 	run.Set("messages_at_the_sink", totalPub)
 	run.Set("kernel_drops", totalDrops)
 	run.Set("collector_processes", nProc)
